@@ -202,6 +202,20 @@ Proof.
   rewrite forallb_app, H. cbn. destruct (ncre n) as [[[] cl]|]; try reflexivity. contradiction.
 Qed.
 
+(* cutting the incoming edges of a FILE never changes the consumers (step sinks) of any file *)
+Lemma step_sinks_del_all_sources_file q l s :
+  step_sinks_of_file q (del_all_sources (KFile, l) s) = step_sinks_of_file q s.
+Proof.
+  unfold step_sinks_of_file, sinks_of, del_all_sources, del_deps_where. cbn [deps set_deps].
+  induction (deps s) as [|d t IH]; [reflexivity|].
+  cbn [filter].
+  destruct (key_eqb (dsnk d) (KFile, l)) eqn:E; cbn [negb].
+  - rewrite IH. destruct (key_eqb (dsrc d) (KFile, q)); [|reflexivity].
+    cbn [map filter]. apply key_eqb_eq in E. rewrite E. cbn [fst kind_eqb]. reflexivity.
+  - cbn [filter]. destruct (key_eqb (dsrc d) (KFile, q)); [|exact IH].
+    cbn [map filter]. destruct (kind_eqb (fst (dsnk d)) KStep); cbn [map]; rewrite IH; reflexivity.
+Qed.
+
 (* ------------------------------------------------------------------------------------------ *)
 (* 3. Trellis.create of a file node, node part (creator Some c)                                *)
 (* ------------------------------------------------------------------------------------------ *)
@@ -241,6 +255,7 @@ Record node_part_spec (c : key) (l : str) (s s1 : st) : Prop := mkNPS {
   np_dep : forall a b, find_dep a b s1 =
                        if key_eqb b (KFile, l) && existsn (KFile, l) s then None else find_dep a b s;
   np_hash : forall x, has_hash x s1 = has_hash x s && negb (lostb s l x);
+  np_sinks : forall q, step_sinks_of_file q s1 = step_sinks_of_file q s;
   np_nfc : no_file_creator_b s1 = true }.
 
 Lemma create_file_node_spec c l s s1 :
@@ -276,6 +291,7 @@ Proof.
            change (has_hash x (del_all_sources (KFile, l) (delete_hash ocl s0)))
              with (has_hash x (delete_hash ocl s0)).
            rewrite has_hash_delete_hash. reflexivity.
+        -- intros q. rewrite step_sinks_del_all_sources_file. reflexivity.
         -- apply Hfin. reflexivity.
       * (* KTree *)
         rewrite products_file_nil in H by (apply Hfin; reflexivity). cbn in H. inversion H; subst s1; clear H.
@@ -284,6 +300,7 @@ Proof.
         -- intros a b. rewrite find_dep_del_all_sources. unfold existsn. rewrite F. cbn.
            rewrite andb_true_r. reflexivity.
         -- intros x. unfold lostb. rewrite F, C. rewrite andb_true_r. reflexivity.
+        -- intros q. rewrite step_sinks_del_all_sources_file. reflexivity.
         -- apply Hfin. reflexivity.
     + cbn [bind] in H. rewrite products_file_nil in H by (apply Hfin; reflexivity). cbn in H.
       inversion H; subst s1; clear H.
@@ -292,6 +309,7 @@ Proof.
       * intros a b. rewrite find_dep_del_all_sources. unfold existsn. rewrite F. cbn.
         rewrite andb_true_r. reflexivity.
       * intros x. unfold lostb. rewrite F, C. rewrite andb_true_r. reflexivity.
+      * intros q. rewrite step_sinks_del_all_sources_file. reflexivity.
       * apply Hfin. reflexivity.
   - inversion H; subst s1; clear H.
     constructor; try reflexivity.
@@ -347,8 +365,11 @@ Record decl_spec (c : key) (l : str) (s s' : st) : Prop := mkDS {
   ds_dep : forall a b, find_dep a b s' =
                        if key_eqb b (KFile, l) && existsn (KFile, l) s then None else find_dep a b s;
   ds_hash : forall x, has_hash x s' = has_hash x s && negb (lostb s l x);
+  ds_sinks : forall q, step_sinks_of_file q s' = step_sinks_of_file q s;
   ds_nfc : no_file_creator_b s' = true }.
 
+Lemma sinks_of_deps s1 s2 p : deps s1 = deps s2 -> step_sinks_of_file p s1 = step_sinks_of_file p s2.
+Proof. intros E. unfold step_sinks_of_file, sinks_of. rewrite E. reflexivity. Qed.
 Lemma view_of_nodes s1 s2 : nodes s1 = nodes s2 -> forall k, node_view k s1 = node_view k s2.
 Proof. intros E k. unfold node_view, find_node. rewrite E. reflexivity. Qed.
 Lemma view_of_files s1 s2 : files s1 = files s2 -> forall l, file_view l s1 = file_view l s2.
@@ -377,6 +398,7 @@ Proof.
   - congruence.
   - intros a b. rewrite (view_of_deps _ _ Hd). apply np_dep0.
   - intros x. rewrite (view_of_shash _ _ Hh). apply np_hash0.
+  - intros q. rewrite (sinks_of_deps _ _ q Hd). apply np_sinks0.
   - unfold no_file_creator_b. rewrite Hn. exact np_nfc0.
 Qed.
 
@@ -420,6 +442,7 @@ Record sdecl_spec (c : key) (T : list str) (s s' : st) : Prop := mkSD {
   sd_dep : forall a b, find_dep a b s' =
                        if in_files b T && existsn b s then None else find_dep a b s;
   sd_hash : forall x, has_hash x s' = has_hash x s && negb (existsb (fun l => lostb s l x) T);
+  sd_sinks : forall q, step_sinks_of_file q s' = step_sinks_of_file q s;
   sd_nfc : no_file_creator_b s' = true }.
 
 Lemma not_file_key c l : not_file c -> key_eqb c (KFile, l) = false.
@@ -475,6 +498,7 @@ Proof.
       rewrite (existsb_ext_in (fun l0 => lostb s1 l0 x) (fun l0 => lostb s l0 x)).
       * rewrite negb_orb, andb_assoc. reflexivity.
       * intros y Hy. rewrite !lostb_view, ds_node0, file_key_eqb, (Hother _ Hy). reflexivity.
+    + intros q. rewrite sd_sinks0. apply ds_sinks0.
     + exact sd_nfc0.
 Qed.
 
@@ -940,8 +964,6 @@ Record confirm_spec (p : str) (h : option N) (s s' : st) : Prop := mkCS {
                       if conf_acts (file_view p s) h && mem_str l (step_sinks_of_file p s)
                       then norm_view (step_view l s) else step_view l s }.
 
-Lemma sinks_of_deps s1 s2 p : deps s1 = deps s2 -> step_sinks_of_file p s1 = step_sinks_of_file p s2.
-Proof. intros E. unfold step_sinks_of_file, sinks_of. rewrite E. reflexivity. Qed.
 Lemma calm_path_steps s1 s2 p :
   deps s1 = deps s2 -> (forall l, step_view l s1 = step_view l s2) -> calm_path p s1 = calm_path p s2.
 Proof.
@@ -1052,5 +1074,67 @@ Proof.
   - intros a b. apply view_of_deps. congruence.
   - intros l. apply view_of_shash. congruence.
   - intros l nm. unfold find_env. replace (envs s12) with (envs s21) by congruence. reflexivity.
+  - congruence.
+Qed.
+
+(* ------------------------------------------------------------------------------------------ *)
+(* 11. a CONFIRMED hash result against a static declaration that does not mention its path     *)
+(* ------------------------------------------------------------------------------------------ *)
+Lemma calm_path_same s1 s2 p :
+  step_sinks_of_file p s1 = step_sinks_of_file p s2 ->
+  (forall l, step_view l s1 = step_view l s2) -> calm_path p s1 = calm_path p s2.
+Proof.
+  intros Ed Es. unfold calm_path. rewrite Ed. clear Ed.
+  induction (step_sinks_of_file p s2) as [|l L IH]; cbn; [reflexivity|].
+  rewrite IH. f_equal. unfold calm_step. rewrite !sstate_of_view, Es. reflexivity.
+Qed.
+Lemma step_view_of_steps s1 s2 : steps s1 = steps s2 -> forall l, step_view l s1 = step_view l s2.
+Proof. intros E l. unfold step_view, find_step. rewrite E. reflexivity. Qed.
+Lemma nfc_of_nodes s1 s2 : nodes s1 = nodes s2 -> no_file_creator_b s1 = no_file_creator_b s2.
+Proof. intros E. unfold no_file_creator_b. rewrite E. reflexivity. Qed.
+
+Theorem confirm_static_commute (s sa sb s12 s21 : st) (p : str) (h : option N) (c : key) (ps : list str) :
+  no_file_creator_b s = true -> not_file c -> NoDup ps -> ~ In p ps -> calm_path p s = true ->
+  step_op (OpUpdateHashes CConfirmed [(p, h)]) s = Ok sa -> step_op (OpDeclareStatic c ps) sa = Ok s12 ->
+  step_op (OpDeclareStatic c ps) s = Ok sb -> step_op (OpUpdateHashes CConfirmed [(p, h)]) sb = Ok s21 ->
+  st_equiv s12 s21.
+Proof.
+  cbn [step_op]. intros Hnfc Hc ND Hp Calm R1 R12 R2 R21.
+  apply confirm_one_spec in R1; [|exact Calm]. destruct R1.
+  apply static_request_spec in R12 as [S12 _]; try assumption;
+    [|rewrite (nfc_of_nodes _ _ cs_nodes0); exact Hnfc].
+  apply static_request_spec in R2 as [S2 _]; try assumption.
+  assert (Hneq : forall l, In l ps -> str_eqb l p = false).
+  { intros l Hl. apply str_eqb_neq. intros ->. contradiction. }
+  assert (ET : filter (newb c sa) ps = filter (newb c s) ps).
+  { apply filter_ext_in. intros l Hl. unfold newb.
+    rewrite (check_declaration_view c l 61 sa s); [reflexivity| |].
+    - apply view_of_nodes. exact cs_nodes0.
+    - rewrite cs_file0, (Hneq _ Hl). reflexivity. }
+  rewrite ET in S12. set (T := filter (newb c s) ps) in *.
+  assert (HpT : mem_str p T = false).
+  { apply mem_str_false. intros HI. apply filter_In in HI as [HI _]. contradiction. }
+  assert (HTp : forall l, mem_str l T = true -> str_eqb l p = false).
+  { intros l M. apply Hneq. eapply mem_filter_sub. exact M. }
+  destruct S2.
+  apply confirm_one_spec in R21.
+  2:{ rewrite (calm_path_same sb s p); [exact Calm | apply sd_sinks0 | apply step_view_of_steps; exact sd_steps0]. }
+  destruct R21, S12.
+  assert (FVp : file_view p sb = file_view p s) by (rewrite sd_file0, HpT; reflexivity).
+  constructor.
+  - intros k. rewrite sd_node1, (view_of_nodes _ _ cs_nodes1), sd_node0.
+    rewrite (view_of_nodes _ _ cs_nodes0 k), !is_detached_view, (view_of_nodes _ _ cs_nodes0 c). reflexivity.
+  - intros l. rewrite sd_file1, cs_file1, FVp, cs_file0, sd_file0.
+    destruct (mem_str l T) eqn:M.
+    + rewrite (HTp _ M). rewrite !hh_view, cs_file0, (HTp _ M). reflexivity.
+    + reflexivity.
+  - intros l. rewrite (step_view_of_steps _ _ sd_steps1), cs_step0, cs_step1, FVp, sd_sinks0.
+    rewrite (step_view_of_steps _ _ sd_steps0). reflexivity.
+  - intros a b. rewrite sd_dep1, (view_of_deps _ _ cs_deps1), sd_dep0.
+    rewrite (view_of_deps _ _ cs_deps0), !existsn_view, (view_of_nodes _ _ cs_nodes0). reflexivity.
+  - intros x. rewrite sd_hash1, (view_of_shash _ _ cs_shash1), sd_hash0, (view_of_shash _ _ cs_shash0).
+    f_equal. f_equal. apply existsb_ext_in. intros y _. rewrite !lostb_view, (view_of_nodes _ _ cs_nodes0).
+    reflexivity.
+  - intros l nm. unfold find_env. rewrite sd_envs1, cs_envs1, sd_envs0, cs_envs0. reflexivity.
   - congruence.
 Qed.
